@@ -360,6 +360,9 @@ func (c *decCtx) wellTyped(mi *msgInfo, b []byte, merge, discard bool, init *V, 
 	key := "decode/" + id
 	if !strings.HasPrefix(res, "ok") {
 		o.withKey(key).prop("C03", false, fmt.Sprintf("%s: well-typed stream %s (%s, merge=%v) rejected (%s); the reference accepts it", id, hx(b), what, merge, res))
+		if hasUnknown(si.fromPR(mi, d)) || discard {
+			o.withKey(key).prop("C14", false, fmt.Sprintf("%s: well-typed stream %s carrying unknown fields (%s, discard=%v) rejected (%s); the reference accepts it and keeps/drops them", id, hx(b), what, discard, res))
+		}
 		return
 	}
 	rawGot := si.fromGo(mi, reflect.ValueOf(q))
@@ -531,14 +534,32 @@ func engineDecode(cfg config, o *out) {
 				}
 				// adversarial length in front of the tail
 				pos := cc.r.intn(len(enc))
-				for _, l := range []uint64{1 << 31, 1<<63 - 1, 1 << 63, 1<<64 - 1, uint64(len(enc)), uint64(len(enc) - pos + 1)} {
-					m := append([]byte{}, enc[:pos]...)
+				lens := []uint64{1 << 31, 1<<63 - 1, 1 << 63, 1<<64 - 1, uint64(len(enc)), uint64(len(enc) - pos + 1)}
+				for n := 1; n <= 16; n++ { // negative lengths that move the index back by at most what the record consumed
+					lens = append(lens, uint64(-int64(n)))
+				}
+				unknownNum := protowire.Number(536870911)
+				for mi.md.Fields().ByNumber(unknownNum) != nil {
+					unknownNum--
+				}
+				for _, l := range lens {
 					if f := mi.md.Fields(); f.Len() > 0 {
 						fd := f.Get(cc.r.intn(f.Len()))
+						m := append([]byte{}, enc[:pos]...)
 						m = protowire.AppendTag(m, fd.Number(), protowire.BytesType)
 						m = protowire.AppendVarint(m, l)
 						m = append(m, enc[pos:]...)
 						c.malformed(mi, m, "advlen")
+					}
+					for _, num := range []protowire.Number{unknownNum, 15} { // through Skip (1- and 5-byte tags)
+						if mi.md.Fields().ByNumber(num) != nil {
+							continue
+						}
+						m := append([]byte{}, enc[:pos]...)
+						m = protowire.AppendTag(m, num, protowire.BytesType)
+						m = protowire.AppendVarint(m, l)
+						m = append(m, enc[pos:]...)
+						c.malformed(mi, m, "advlen-unknown")
 					}
 				}
 			}
